@@ -154,7 +154,8 @@ DefaultFields == <<"title", "body">>
 (* Composites:                                                                                 *)
 (*  <<"bool", cl>>   cl = sequence of <<occ, q>>, occ \in "+" "-" ""                           *)
 (*  <<"bin", qs, ops>> q1 op1 q2 op2 ... with ops \in "AND" "OR"; AND binds tighter            *)
-(*  <<"grp", f, cl>> f:( ... ) - the clauses are words without a field of their own            *)
+(*  <<"grp", f, cl>> f:( ... ) - f is the field of every word / phrase below that names none,     *)
+(*                   through markers, parentheses, boosts, chains (an inner group takes over)   *)
 (*  <<"boost", q, b>> <<"paren", q>>                                                           *)
 (*  <<"chain", items, ops>> operands with markers in an unparenthesised AND / OR / juxtaposition chain *)
 Has(s, x) == \E p \in 1..Len(s) : s[p] = x
@@ -220,6 +221,7 @@ RawQ(q) == CASE q[1] = "chain" -> <<"rawchain", [x \in 1..Len(q[2]) |-> <<q[2][x
              [] q[1] = "bool"  -> <<"bool", [x \in 1..Len(q[2]) |-> <<q[2][x][1], RawQ(q[2][x][2])>>]>>
              [] q[1] = "bin"   -> <<"bin", [x \in 1..Len(q[2]) |-> RawQ(q[2][x])], q[3]>>
              [] q[1] = "paren" -> <<"paren", RawQ(q[2])>>
+             [] q[1] = "grp"   -> <<"grp", q[2], [x \in 1..Len(q[3]) |-> <<q[3][x][1], RawQ(q[3][x][2])>>]>>
              [] q[1] = "boost" -> <<"boost", RawQ(q[2]), q[3]>>
              [] OTHER -> q
 
@@ -267,16 +269,29 @@ MatchSet(q, conj) == {k \in 1..ND : M(q, Docs[k], conj, "")}
 RECURSIVE AllNegative(_)
 AllNegative(q) == CASE q[1] = "bool" -> \A k \in 1..Len(q[2]) : q[2][k][1] = "-" \/ AllNegative(q[2][k][2])
                     [] q[1] = "paren" -> AllNegative(q[2])
+                    [] q[1] = "grp" -> \A k \in 1..Len(q[3]) : q[3][k][1] = "-" \/ AllNegative(q[3][k][2])
                     [] q[1] = "boost" -> AllNegative(RawQ(q[2]))
                     [] q[1] \in {"chain", "rawchain"} -> AllNegative(ChainToBool(q))
                     [] OTHER -> FALSE
 \* ... the lenient parser adds "or anything" to the outermost clause list
 RECURSIVE NonNegative(_)
 NonNegative(q) == CASE q[1] = "bool" -> <<"bool", Append(q[2], <<"?", <<"all">>>>)>>
+                    [] q[1] = "grp" -> <<"grp", q[2], Append(q[3], <<"?", <<"all">>>>)>>
                     [] q[1] \in {"chain", "rawchain"} -> NonNegative(ChainToBool(q))
                     [] q[1] = "boost" -> <<"boost", NonNegative(RawQ(q[2])), q[3]>>
                     [] OTHER -> <<q[1], NonNegative(q[2])>>
 NegatedSet(q, conj) == MatchSet(NonNegative(q), conj)
+\* does some word or phrase have no field, neither its own nor that of a group around it (whatever sits
+\* in between: markers, parentheses, boosts, chains)?  Such a query needs a default field.
+RECURSIVE Unscoped(_, _)
+Unscoped(q, sc) ==
+  CASE q[1] \in {"w", "ph"} -> q[2] = "" /\ sc = ""
+    [] q[1] = "bool" -> \E k \in 1..Len(q[2]) : Unscoped(q[2][k][2], sc)
+    [] q[1] = "grp" -> \E k \in 1..Len(q[3]) : Unscoped(q[3][k][2], q[2])
+    [] q[1] = "bin" -> \E k \in 1..Len(q[2]) : Unscoped(q[2][k], sc)
+    [] q[1] \in {"chain", "rawchain"} -> \E k \in 1..Len(q[2]) : Unscoped(q[2][k][2], sc)
+    [] q[1] \in {"boost", "paren"} -> Unscoped(q[2], sc)
+    [] OTHER -> FALSE
 
 ---------------------------------------------------------------------------
 (* 3. printing.  st is a sequence of small numbers (the style); Sty(st, k) reads the k-th,      *)
@@ -343,7 +358,7 @@ P(q, st, k) ==
                                      (IF x = 1 \/ q[3][x - 1] = "" THEN <<>> ELSE (IF q[3][x - 1] = "AND" THEN K_AND ELSE K_OR) \o Blanks(1 + (Sty(st, k + x) % 2)))
                                      \o (CASE q[2][x][1] = "+" -> <<43>> [] q[2][x][1] = "-" -> <<45>> [] q[2][x][1] = "NOT" -> <<78, 79, 84>> \o Blanks(1 + (Sty(st, k + x + 1) % 2)) [] OTHER -> <<>>)
                                      \o P(q[2][x][2], st, k + 5 * x)], Blanks(1 + (Sty(st, k) % 2)))
-    [] q[1] = "boost" -> P(q[2], st, k + 1) \o <<CARET>> \o IntText(q[3]) \o (IF Sty(st, k) % 2 = 0 THEN <<>> ELSE <<46, 53>>)
+    [] q[1] = "boost" -> P(q[2], st, k + 1) \o <<CARET>> \o IntText(q[3]) \o (IF q[3] # 0 /\ Sty(st, k) % 2 = 0 THEN <<>> ELSE <<46, 53>>)    \* ^2 ^2.5 ^0.5
     [] q[1] = "paren" -> <<LPAR>> \o Blanks(Sty(st, k) % 2) \o P(q[2], st, k + 1) \o Blanks(Sty(st, k + 1) % 2) \o <<RPAR>>
 \* the whole query: optional blanks around it, optionally one more pair of parentheses
 PrintQ(q, st) ==
